@@ -134,7 +134,12 @@ class Sched:
 
     def flock_hook(self, real, fd, op, path):
         t = self.me()
-        if t is None or op & fcntl.LOCK_UN:
+        if op & fcntl.LOCK_UN:
+            try:
+                return real(fd, op)
+            finally:
+                self.after_close(path)        # an explicit unlock wakes the waiters just as closing the file does
+        if t is None:
             return real(fd, op)
         while True:
             try:
@@ -162,6 +167,13 @@ class Sched:
                 if not runnable:
                     if all(t.state == "done" for t in self.ts):
                         break
+                    # file locks can be released in ways no hook sees (os.close of a raw descriptor, a dup'ed descriptor,
+                    # the end of a thread): before calling it a deadlock let the flock waiters try once more - if nothing
+                    # has been executed since their last attempt they are really stuck
+                    if self.flock_waiters and getattr(self, "_flock_retry_at", -1) != len(self.log):
+                        self._flock_retry_at = len(self.log)
+                        self.after_close(None)
+                        continue
                     timed = [t for t in self.ts if t.state == "blocked" and t.timed_wait is not None]
                     if timed:
                         # nobody can run: time passes until the first timed wait expires
